@@ -12,12 +12,55 @@ class C11(ParserSessionProp):
     rule = ('case = (sentence, call context) response of the real depccg.parsing.run inside a multi-call '
             'session (shared argument objects; seeded batch = subset/permutation/repetition; processes 1-5; '
             'max_chunk_size 0-20; SimPool schedule: worker assignment, service times, stalls, reordered '
-            'completion; faults F1 budget, F2 length, F3 no parse, F4 callback raises, F7 malformed input). '
+            'completion; faults F1 budget, F2 length, F3 no parse, F4 callback raises, F7 malformed input); every eighth run is a "grid" run: 80 '
+            'calls covering one slice of the (batch size 1-64) x (processes 1-40) grid on one-word sentences, 256 consecutive '
+            'run indices visit every combination once. '
             'Distinct = digest of (sentence digest, config, context signature, schedule signature); '
             'non-trivial = context differs from "alone" (batch > 1 or pooled) and the response is a parse '
             'or a placeholder next to a parse in the same call.')
 
+    def generate(self, seed, index, tier, options):
+        if index % 8 != 3:
+            return super().generate(seed, index, tier, options)
+        # "grid" run: chunk arithmetic over many (batch size, process count, chunk size) combinations on
+        # one-word sentences (cheap), so that rare combinations -- more workers than sentences, remainders,
+        # sizes around the default chunk size of 20 -- are visited systematically rather than by luck
+        from depsim import gen
+        rng = gen.stream(seed, 'C11:grid', index)
+        nprng = gen.np_stream(rng)
+        sentences = []
+        for sid in range(6):
+            tag, dep = gen.make_scores(nprng, rng, 1, 2, 'continuous')
+            sentences.append({'words': [f'g{sid}'], 'tag': gen.arr_to_hex(tag), 'dep': gen.arr_to_hex(dep),
+                              'style': 'continuous', 'rich': False, 'favoured': None})
+        wspec = {'family': 'synth-left',
+                 'grammar': {'kind': 'synth', 'heads': 'left', 'binary': {}, 'unary': {}, 'categories': ['A', 'B'],
+                             'roots': ['A'], 'lang': 'en'},
+                 'sentences': sentences}
+        ops = []
+        # systematic: the (n, processes) grid 1..64 x 1..40 is cut into slices of 80 combinations; grid run
+        # number g covers slice g (mod 32), so 256 consecutive run indices visit every combination once
+        g = index // 8
+        for lin in range((g % 32) * 80, (g % 32) * 80 + 80):
+            n = lin // 40 + 1
+            p = lin % 40 + 1
+            m = rng.choice([20 if n > 20 else 0, 20 if n > 20 else 1, 0, 5, 19, 21])
+            start = rng.randrange(6)
+            op = {'op': 'call', 'batch': [(start + k) % 6 for k in range(n)], 'processes': p, 'max_chunk_size': m,
+                  'unary_penalty': 0.1, 'beta': 1e-5, 'use_beta': False, 'pruning_size': 2, 'nbest': 1,
+                  'max_step': 1000, 'max_length': 250}
+            if n > m:
+                op['schedule'] = {'default_service': 0.01}
+                if rng.random() < 0.3:
+                    op['schedule']['start_delay'] = {str(i): round((70 - i) * 0.1, 2) for i in range(70)}
+            ops.append(op)
+        return {'prop': self.id, 'seed': seed, 'index': index, 'world': wspec, 'ops': ops,
+                'knobs': {'family': 'grid', 'fault_class': 'none', 'nbest': 1}, 'executor': 'inprocess'}
+
     def check_call(self, world, op, rec, stats, spec):
+        if spec.get('knobs', {}).get('family') == 'grid':
+            bump(stats, 'grid_calls')
+            add_set(stats, 'grid_combinations', (len(op['batch']), op['processes'], op['max_chunk_size']))
         out = []
         fault = op.get('fault') or {}
         batch = op['batch']
